@@ -27,10 +27,18 @@ Inductive step :=
      (* a = d.pop(key, None); if a is not None: var = cb(var, k(a))   (k(1/a) when inv) *)
 | SRej (key : pw).                                  (* a = d.pop(key, 0); if a != 0: raise *)
 Inductive retk := RVar (v : nat) | RSer (vs : list nat) | RPar (vs : list nat).
+(* the test between the last pop and the return:
+   GExhaust    if d != {}: raise        (every term of the expansion was consumed)
+   GVarNone v  if v is None: raise      (does NOT imply that all terms were consumed)
+   GNoGuard    no test at all *)
+Inductive guard := GExhaust | GVarNone (v : nat) | GNoGuard.
 Record pat := MkPat { p_par : bool;                (* d built from 1/lexpr *)
                       p_zero_none : bool;          (* lexpr == 0: return None (else raise) *)
+                      p_guard : guard;
                       p_steps : list step;
                       p_ret : retk }.
+
+Definition p_exhaust (p : pat) : bool := match p_guard p with GExhaust => true | _ => false end.
 
 Section Pat.
 Variable K : fld.
@@ -72,7 +80,12 @@ Definition ret_run (r : retk) (e : env) : option net :=
 Definition pat_coeffs (p : pat) (c : coef) : res (option net) :=
   match steps_run (p_steps p) c [] with
   | Err => Err
-  | Ok (c', e) => if coef_zero c' then Ok (ret_run (p_ret p) e) else Err     (* if d != {}: raise *)
+  | Ok (c', e) =>
+      match p_guard p with
+      | GExhaust => if coef_zero c' then Ok (ret_run (p_ret p) e) else Err     (* if d != {}: raise *)
+      | GVarNone v => match env_get v e with None => Err | Some _ => Ok (ret_run (p_ret p) e) end
+      | GNoGuard => Ok (ret_run (p_ret p) e)
+      end
   end.
 
 (* E = a/b is cm/x + c0 + c1 x  iff  x*a = (cm + c0 x + c1 x^2) * b *)
@@ -104,14 +117,18 @@ Definition pattern_run (p : pat) (arg : rat K) : res (option net) :=
 Definition pattern_try (p1 p2 : pat) (arg : rat K) : res (option net) :=
   match pattern_run p1 arg with Ok r => Ok r | Err => pattern_run p2 arg end.
 
-(* what a table has to satisfy at coefficient level *)
-Definition coeff_sound (p : pat) : Prop := forall cm c0 c1 x, x <> 0 ->
+(* what a table has to satisfy: the guard before the return is the exhaustiveness
+   test (only then "anything that is not cm/x + c0 + c1 x raises" -- the premise of
+   [pattern_run]'s use of [laurent3] -- is a property of the code: other powers of x
+   stay in d), and the coefficient-level behaviour is sound *)
+Definition coeff_sound0 (p : pat) : Prop := forall cm c0 c1 x, x <> 0 ->
   match pat_coeffs p (cm, c0, c1) with
   | Ok (Some nt) => Zwf nt x ->
       if p_par p then Zev nt x * lval (cm, c0, c1) x = x else Zev nt x * x = lval (cm, c0, c1) x
   | Ok None => cm = 0 /\ c0 = 0 /\ c1 = 0
   | Err => True
   end.
+Definition coeff_sound (p : pat) : Prop := p_exhaust p = true /\ coeff_sound0 p.
 (* result of a realiser on n/d: the impedance Z of the returned network satisfies Z * d(x) = n(x) *)
 Definition realises (r : option net) (n d : poly) (x : K) : Prop :=
   match r with
@@ -122,7 +139,7 @@ Lemma mul_cancel_x (x u v : K) : x <> 0 -> u * x = v * x -> u = v.
 Proof. intros Hx E. transitivity (u * x / x); [field; exact Hx | rewrite E; field; exact Hx]. Qed.
 Theorem pattern_sound (p : pat) : coeff_sound p ->
   forall n d r x, pattern_run p (n, d) = Ok r -> x <> 0 -> realises r n d x.
-Proof. intros Hp n d r x. unfold pattern_run.
+Proof. intros [_ Hp] n d r x. unfold pattern_run.
   destruct (pzerob d) eqn:Hd; [discriminate|]. destruct (pzerob n) eqn:Hn.
   - destruct (p_zero_none p); [|discriminate]. intros H Hx. inversion H; subst. left. apply pzerob_eval. exact Hn.
   - specialize (Hp). destruct (p_par p) eqn:Par.
@@ -167,7 +184,7 @@ End Pat.
 Arguments coef_get {K}. Arguments coef_clr {K}. Arguments coef_zero {K}. Arguments lval {K}.
 Arguments env_get {K}. Arguments env_set {K}. Arguments steps_run {K}. Arguments ret_run {K}.
 Arguments pat_coeffs {K}. Arguments laurent3 {K}. Arguments pattern_run {K}. Arguments pattern_try {K}.
-Arguments coeff_sound {K}. Arguments realises {K}.
+Arguments coeff_sound {K}. Arguments coeff_sound0 {K}. Arguments realises {K}.
 
 (* ---- tactics for concrete (generated) tables ---------------------------------
    [coeff_sound_tac tbl]: proves [coeff_sound K tbl] by the 8-way case split
@@ -177,7 +194,7 @@ Ltac fe_rewrite K :=
     [ rewrite (feqb_refl_eq K)
     | match goal with H : ?a <> f0 |- context [feqb ?a f0] => rewrite (proj2 (feqb_neq K a f0) H) end ].
 Ltac red_pat :=
-  cbv beta iota zeta delta [pat_coeffs steps_run p_steps p_ret p_par coef_get coef_clr coef_zero env_get env_set nth ret_run
+  cbv beta iota zeta delta [pat_coeffs steps_run p_steps p_ret p_par p_guard coef_get coef_clr coef_zero env_get env_set nth ret_run
        series2 parallel2 series_l parallel_l somes fold_right map andb].
 Ltac zsplit K c := destruct (fdec K c f0) as [?|?]; [subst c|].
 Ltac leaf_nz :=
@@ -195,7 +212,7 @@ Ltac coeff_goal K :=
     | cbn [Zev Zwf lval] in *; field; leaf_nz ] ].
 Ltac coeff_sound_tac K tbl :=
   let cm := fresh "cm" in let c0 := fresh "c0" in let c1 := fresh "c1" in let x := fresh "x" in let Hx := fresh "Hx" in
-  unfold coeff_sound; intros cm c0 c1 x Hx; unfold tbl;
+  split; [reflexivity|]; unfold coeff_sound0; intros cm c0 c1 x Hx; unfold tbl;
   zsplit K cm; zsplit K c0; zsplit K c1; coeff_goal K.
 (* [coeff_rejects_tac]: goal  forall cm c0 c1, <some coefficient> <> 0 -> pat_coeffs tbl (cm,c0,c1) = Err *)
 Ltac coeff_rejects_tac K tbl :=
